@@ -134,38 +134,41 @@ theorem lookup_bound {α} (x : Name) (bound a b : List (Name × α)) (h : lookup
 
 /-- the state in which the statements of a def start, after `push_frame` (and `push_buffer`) and the prologue -/
 theorem relc_def_start {l : Loc} {σ σS : St} {E : Spec.Env} {pend : Spec.SNS} (bound : List (Name × Str)) (clex : NS)
-    (mod W extra : Nat) {newF : List (Name × Clo)} {newD : List (Name × Spec.SFun)} (hF : ClosRel newF newD)
-    (hR : RelW l σ E) (hN : NSRel σ.next pend) (hfr : σS.frames = σ.next :: σ.frames)
+    (lex : Bool) (mod W extra : Nat) {newF : List (Name × Clo)} {newD : List (Name × Spec.SFun)}
+    (hF : ClosRel newF newD) (hR : RelW l σ E) (hN : NSRel σ.next pend) (hfr : σS.frames = σ.next :: σ.frames)
     (hbl : σS.bufs.length = E.nb + extra) :
-    RelC ⟨bound ++ l.vars, newF ++ l.funs, W, [], σ.next, clex, false, mod⟩ σS
-      ⟨bound ++ E.vars, newD ++ E.defs, pend, [], E.nb + extra, E.nf + 1, mod⟩ :=
-  ⟨fun x => lookup_bound x bound _ _ (hR.vars x), ⟨σS.loops.map (·.index), by simp⟩, hbl, by simp [hfr, hR.nf],
-    hF.append hR.funs, rfl, ⟨σ.next, by simp [callerView, hfr], hN⟩, hN⟩
+    RelC (!lex) ⟨bound ++ l.vars, newF ++ l.funs, W, [], σ.next, clex, lex, mod⟩ σS
+      ⟨bound ++ E.vars, newD ++ E.defs, pend, [], E.nb + extra, E.nf + 1, mod⟩ := by
+  refine ⟨fun x => lookup_bound x bound _ _ (hR.vars x), ⟨σS.loops.map (·.index), by simp⟩, hbl, by simp [hfr, hR.nf],
+    hF.append hR.funs, rfl, fun hcv => ?_, hN⟩
+  have hlex : lex = false := by simpa using hcv
+  subst hlex
+  exact ⟨σ.next, by simp [callerView, hfr], hN⟩
 
 /-- the state in which the statements of the `body()` of a `<%call>` start -/
 theorem relc_body_start {l : Loc} {σ σS : St} {E : Spec.Env} {lexS : Spec.SNS} (bound : List (Name × Str)) (clex : NS)
-    (mod W : Nat) (hR : RelW l σ E) (hL : NSRel clex lexS) (hfr : σS.frames = σ.frames)
-    (hbl : σS.bufs.length = E.nb) :
-    RelC ⟨bound ++ l.vars, l.funs, W, [], clex, clex, true, mod⟩ σS
-      ⟨bound ++ E.vars, E.defs, lexS, [], E.nb, E.nf, mod⟩ :=
+    (mod W : Nat) {defs' : List (Name × Spec.SFun)} (hF : ClosRel l.funs defs') (hR : RelW l σ E)
+    (hL : NSRel clex lexS) (hfr : σS.frames = σ.frames) (hbl : σS.bufs.length = E.nb) :
+    RelC true ⟨bound ++ l.vars, l.funs, W, [], clex, clex, true, mod⟩ σS
+      ⟨bound ++ E.vars, defs', lexS, [], E.nb, E.nf, mod⟩ :=
   ⟨fun x => lookup_bound x bound _ _ (hR.vars x), ⟨σS.loops.map (·.index), by simp⟩, hbl, by simp [hfr, hR.nf],
-    hR.funs, rfl, ⟨clex, by simp [callerView], hL⟩, hL⟩
+    hF, rfl, fun _ => ⟨clex, by simp [callerView], hL⟩, hL⟩
 
 theorem rc_invoke (n : Nat) (ih : ∀ m, m < n + 1 → RC ts k m) : InvokeRef ts k (n + 1) := by
   intro clo sf lexS vs l σ E pend i top rest r σ' hfr hmod hbody hR hN hl hlex hσ hb he hr
   obtain ⟨fn, clex, cmod⟩ := clo
   simp only at hfr hmod hbody hlex
   -- running the statements of the callable, with less fuel
-  have runS : ∀ (m : Nat), m < n → ∀ (s : Scope) (body : Tmpl) (bf : Bool) (lS : Loc) (σS : St) (iS : Nat) (topS : Str)
-      (restS : List (Nat × Str)) (inner : Spec.Env) (oS : Outcome) (lS' : Loc) (σS' : St),
-      Good s false bf body = true → RelC lS σS inner → σS.next = [] → LocOK lS → StOK σS →
+  have runS : ∀ (m : Nat), m < n → ∀ (s : Scope) (body : Tmpl) (bf cv cb : Bool) (lS : Loc) (σS : St) (iS : Nat)
+      (topS : Str) (restS : List (Nat × Str)) (inner : Spec.Env) (oS : Outcome) (lS' : Loc) (σS' : St),
+      Good s false bf cv cb body = true → RelC cv lS σS inner → σS.next = [] → LocOK lS → StOK σS →
       σS.bufs = (iS, topS) :: restS → lS.writer = iS →
       exec (progOf ts k) m (stmts s body) lS σS = (oS, lS', σS') → oS ≠ .timeout →
       ∃ out vars', σS'.bufs = (iS, topS ++ out) :: restS ∧
         Ev (fun m' => Spec.snodes ⟨ts, k⟩ m' body inner σS.cnt) ⟨conv oS, out, σS'.cnt, vars'⟩ ∧ RetE oS ∧
         σS'.frames = σS.frames ∧ σS'.loops = σS.loops ∧ σS'.next = [] := by
-    intro m hm s body bf lS σS iS topS restS inner oS lS' σS' hg hRS hnS hlS hσS hbS hwS hS htoS
-    obtain ⟨out, vars', h1, h2, _, _, h5⟩ := (ih m (by omega)).stmt body s false bf lS σS inner iS topS restS oS lS' σS'
+    intro m hm s body bf cv cb lS σS iS topS restS inner oS lS' σS' hg hRS hnS hlS hσS hbS hwS hS htoS
+    obtain ⟨out, vars', h1, h2, _, _, h5⟩ := (ih m (by omega)).stmt body s false bf cv cb lS σS inner iS topS restS oS lS' σS'
       hg hRS hnS (fun h => by cases h) hlS hσS hbS hwS hS htoS
     obtain ⟨b, _, _⟩ := (all_good (progOf ts k) (codegen_cfg_ok ts k) m).exec _ lS σS iS topS restS
       ((emits body).stmts s) hlS hσS hbS hwS oS lS' σS' hS htoS
@@ -174,30 +177,31 @@ theorem rc_invoke (n : Nat) (ih : ∀ m, m < n + 1 → RC ts k m) : InvokeRef ts
     · rw [h, hnS]
     · exact h
   cases hfr with
-  | def_ s ps fl body own mod kind hk hc hnd hg =>
+  | def_ s ps fl body own lex mod kind hk hc hnd hg =>
     simp only at hmod hbody
     subst hmod
     refine invoke_fin ts k (sf := ⟨ps, fl, body, kind, cmod⟩) rfl rfl hc hb he hr ?_
     intro bound σ1 o l3 σ2 hz hb1 hf1 hn1 hid1 hex hto
     have hσ1 : StOK σ1 := ⟨by rw [hf1]; exact hσ.frames, by rw [hn1]; exact hσ.next⟩
     -- the prologue: the closures of the scope (none for the template body, whose defs are module-level)
+    have hlv : NSOK (cond lex clex []) := by cases lex <;> first | exact NSOK_nil | exact hlex
     have pack : ∃ (P : Loc → Loc) (newF : List (Name × Clo)) (newD : List (Name × Spec.SFun)),
         ProEff (progOf ts k) (hoist s body) P ∧
-        (∀ lx : Loc, lx.useLex = false → lx.mod = cmod → P lx = { lx with funs := newF ++ lx.funs }) ∧
+        (∀ lx : Loc, lx.useLex = lex → lx.lexc = clex → lx.mod = cmod → P lx = { lx with funs := newF ++ lx.funs }) ∧
         ClosRel newF newD ∧ (∀ p ∈ newF, FunOK p.2.fn ∧ NSOK p.2.lex) ∧
         Spec.declared (kind == .main) cmod body = newD := by
-      rcases hk with ⟨rfl, ht, hbd⟩ | ⟨rfl, ht⟩
-      · refine ⟨hoistEff s body, hoistClos [] cmod s body, Spec.declared false cmod body,
-          exec_hoist _ body s _ _ ht hbd hg, ?_, hoist_closrel [] cmod body s _ _ ht hbd hg hnd,
-          hoistClos_ok NSOK_nil cmod s body, rfl⟩
-        intro lx h1 h2
-        simp [hoistEff, lexOf, h1, h2]
-      · exact ⟨id, [], [], proeff_skips _ (good_top_hoist body s _ _ ht hg).1, fun lx _ _ => (by simp),
-          fun x _ => (by simp [lookup, OptRel]), fun p hp => (by cases hp), (good_top_hoist body s _ _ ht hg).2.2 cmod⟩
+      rcases hk with ⟨rfl, ht⟩ | ⟨rfl, ht, _⟩
+      · refine ⟨hoistEff s body, hoistClos (cond lex clex []) cmod s body, Spec.declared false cmod body,
+          exec_hoist _ body s _ _ _ ht hg, ?_, hoist_closrel _ cmod body s _ _ _ ht hg hnd,
+          hoistClos_ok hlv cmod s body, rfl⟩
+        intro lx h1 h2 h3
+        simp [hoistEff, lexOf, h1, h2, h3]
+      · exact ⟨id, [], [], proeff_skips _ (good_top_hoist body s _ _ _ ht hg).1, fun lx _ _ _ => (by simp),
+          fun x _ => (by simp [lookup, OptRel]), fun p hp => (by cases hp), (good_top_hoist body s _ _ _ ht hg).2.2 cmod⟩
     obtain ⟨P, newF, newD, hH, hPeq, hFD, hFok, hdecl⟩ := pack
     have hinner : innerEnv ⟨ps, fl, body, kind, cmod⟩ lexS bound E pend =
         ⟨bound ++ E.vars, newD ++ E.defs, pend, [], E.nb + (if Spec.isBuffering fl then 1 else 0), E.nf + 1, cmod⟩ := by
-      rcases hk with ⟨rfl, _, _⟩ | ⟨rfl, _⟩ <;> simp [innerEnv, ← hdecl]
+      rcases hk with ⟨rfl, _⟩ | ⟨rfl, _, _⟩ <;> simp [innerEnv, ← hdecl]
     rw [hinner]
     have hσS : StOK { σ1 with frames := σ1.next :: σ1.frames, next := [] } :=
       ⟨by intro f hf
@@ -205,7 +209,7 @@ theorem rc_invoke (n : Nat) (ih : ∀ m, m < n + 1 → RC ts k m) : InvokeRef ts
           · exact hσ1.next
           · exact hσ1.frames f h, NSOK_nil⟩
     have hN1 : NSRel σ1.next pend := by rw [hn1]; exact hN
-    have hlS : ∀ W, LocOK ⟨bound ++ l.vars, newF ++ l.funs, W, [], σ1.next, clex, false, cmod⟩ := by
+    have hlS : ∀ W, LocOK ⟨bound ++ l.vars, newF ++ l.funs, W, [], σ1.next, clex, lex, cmod⟩ := by
       intro W
       refine ⟨?_, hσ1.next, hlex⟩
       intro p hp
@@ -224,12 +228,12 @@ theorem rc_invoke (n : Nat) (ih : ∀ m, m < n + 1 → RC ts k m) : InvokeRef ts
       have hib : Spec.isBuffering fl = true := by simp [Spec.isBuffering, hbuf]
       rw [hB] at hex
       obtain ⟨m, o1, l1, σb, hm, hS, hto1, hfin⟩ := core_buffered (progOf ts k) _ hH hex hto
-      rw [hPeq _ rfl rfl] at hS
+      rw [hPeq _ rfl rfl rfl] at hS
       have hRS := relc_def_start (σS := { σ1 with frames := σ1.next :: σ1.frames, next := [], bufs := (σ1.nextId, []) :: σ1.bufs, nextId := σ1.nextId + 1 })
-            bound clex cmod σ1.nextId 1 hFD hR hN
+            bound clex lex cmod σ1.nextId 1 hFD hR hN
           (by simp [hn1, hf1]) (by simp [hb1, hR.nb])
       rw [← hn1] at hRS
-      obtain ⟨out, vars', hbS, evS, hret, hfS, hlS', hnS⟩ := runS m hm s body _ _ _ σ1.nextId [] (σ1.bufs)
+      obtain ⟨out, vars', hbS, evS, hret, hfS, hlS', hnS⟩ := runS m hm s body _ (!lex) false _ _ σ1.nextId [] (σ1.bufs)
         _ o1 l1 σb (by rw [hib] at hg; exact hg) hRS rfl (hlS _) (hσS.of_eq rfl rfl) rfl rfl hS hto1
       simp only [hib, if_true]
       obtain ⟨hne, hnorm⟩ := hfin σ1.nextId ([] ++ out) σ1.bufs σ1.next σ1.frames hbS (by rw [hfS])
@@ -238,7 +242,7 @@ theorem rc_invoke (n : Nat) (ih : ∀ m, m < n + 1 → RC ts k m) : InvokeRef ts
         obtain ⟨m0, e0⟩ := evS
         have e := congrArg Spec.SR.o (e0 m0 (Nat.le_refl _))
         simp only at e
-        exact (snodes_noret ⟨ts, k⟩ m0).1 body _ _ (good_noret body s false (by rw [hib] at hg; exact hg)) (e.trans hcr)
+        exact (snodes_noret ⟨ts, k⟩ m0).1 body _ _ (good_noret body s false _ _ (by rw [hib] at hg; exact hg)) (e.trans hcr)
       refine ⟨⟨conv o1, out, σb.cnt, vars'⟩, evS, ?_⟩
       cases o1 with
       | timeout => exact absurd rfl hto1
@@ -293,11 +297,11 @@ theorem rc_invoke (n : Nat) (ih : ∀ m, m < n + 1 → RC ts k m) : InvokeRef ts
         have hib : Spec.isBuffering fl = false := by simp [Spec.isBuffering, hbuf', hc, hfnil]
         rw [hB] at hex
         obtain ⟨m, o1, l1, σb, hm, hS, hto1, hpop⟩ := core_plain (progOf ts k) hH (hb1.trans hb) hex hto
-        rw [hPeq _ rfl rfl] at hS
-        have hRS := relc_def_start (σS := { σ1 with frames := σ1.next :: σ1.frames, next := [] }) bound clex cmod i 0 hFD hR hN
+        rw [hPeq _ rfl rfl rfl] at hS
+        have hRS := relc_def_start (σS := { σ1 with frames := σ1.next :: σ1.frames, next := [] }) bound clex lex cmod i 0 hFD hR hN
             (by simp [hn1, hf1]) (by simp [hb1, hR.nb])
         rw [← hn1] at hRS
-        obtain ⟨out, vars', hbS, evS, hret, hfS, hlS', hnS⟩ := runS m hm s body _ _ _ i top rest
+        obtain ⟨out, vars', hbS, evS, hret, hfS, hlS', hnS⟩ := runS m hm s body _ (!lex) false _ _ i top rest
           _ o1 l1 σb (by rw [hib] at hg; exact hg) hRS rfl (hlS _) hσS (hb1.trans hb) rfl hS hto1
         simp only [hib, Bool.false_eq_true, if_false, Nat.add_zero]
         obtain ⟨rfl, ho⟩ := hpop σ1.next σ1.frames (by rw [hfS])
@@ -332,12 +336,12 @@ theorem rc_invoke (n : Nat) (ih : ∀ m, m < n + 1 → RC ts k m) : InvokeRef ts
         have hib : Spec.isBuffering fl = true := by simp [Spec.isBuffering, hfne]
         rw [hB] at hex
         obtain ⟨m, o1, l1, σb, hm, hS, hto1, hfin⟩ := core_filtered (progOf ts k) _ hH hex hto
-        rw [hPeq _ rfl rfl] at hS
+        rw [hPeq _ rfl rfl rfl] at hS
         have hRS := relc_def_start (σS := { σ1 with frames := σ1.next :: σ1.frames, next := [], bufs := (σ1.nextId, []) :: σ1.bufs, nextId := σ1.nextId + 1 })
-            bound clex cmod σ1.nextId 1 hFD hR hN
+            bound clex lex cmod σ1.nextId 1 hFD hR hN
             (by simp [hn1, hf1]) (by simp [hb1, hR.nb])
         rw [← hn1] at hRS
-        obtain ⟨out, vars', hbS, evS, hret, hfS, hlS', hnS⟩ := runS m hm s body _ _ _ σ1.nextId [] (σ1.bufs)
+        obtain ⟨out, vars', hbS, evS, hret, hfS, hlS', hnS⟩ := runS m hm s body _ (!lex) false _ _ σ1.nextId [] (σ1.bufs)
           _ o1 l1 σb (by rw [hib] at hg; exact hg) hRS rfl (hlS _) (hσS.of_eq rfl rfl) rfl rfl hS hto1
         simp only [hib, if_true]
         rw [hb1, hb] at hbS
@@ -347,7 +351,7 @@ theorem rc_invoke (n : Nat) (ih : ∀ m, m < n + 1 → RC ts k m) : InvokeRef ts
           obtain ⟨m0, e0⟩ := evS
           have e := congrArg Spec.SR.o (e0 m0 (Nat.le_refl _))
           simp only at e
-          exact (snodes_noret ⟨ts, k⟩ m0).1 body _ _ (good_noret body s false (by rw [hib] at hg; exact hg)) (e.trans hcr)
+          exact (snodes_noret ⟨ts, k⟩ m0).1 body _ _ (good_noret body s false _ _ (by rw [hib] at hg; exact hg)) (e.trans hcr)
         refine ⟨⟨conv o1, out, σb.cnt, vars'⟩, evS, ?_⟩
         cases o1 with
         | timeout => exact absurd rfl hto1
@@ -391,22 +395,31 @@ theorem rc_invoke (n : Nat) (ih : ∀ m, m < n + 1 → RC ts k m) : InvokeRef ts
             subst hv
             obtain ⟨rfl, rfl⟩ := hmatch
             simp [coreRes, conv, hfc, hb3, hf3, hl3, hn3, convO]
-  | body s args body own mod hs hsb hg =>
+  | body sc args body mod hg hcb =>
     simp only at hmod hbody
     subst hmod
-    obtain ⟨hL, hn0⟩ := hbody trivial
+    obtain ⟨hL, hn0, restD, hED⟩ := hbody trivial
+    -- (hED is already in normal form)
+    unfold bodyFun at he
     refine invoke_fin ts k (sf := ⟨args, noFlags, body, .body, cmod⟩) (fl := noFlags) rfl rfl rfl hb he hr ?_
     intro bound σ1 o l3 σ2 hz hb1 hf1 hn1 hid1 hex hto
     have hσ1 : StOK σ1 := ⟨by rw [hf1]; exact hσ.frames, by rw [hn1]; exact hσ.next⟩
-    have hnd := nodefs_facts body (good_nodefs body s _ _ hs hsb hg)
+    have F := cb_facts cmod body _ hcb
     have hinner : innerEnv ⟨args, noFlags, body, .body, cmod⟩ lexS bound E pend =
-        ⟨bound ++ E.vars, E.defs, lexS, [], E.nb, E.nf, cmod⟩ := by
-      simp [innerEnv, hnd.declared, Spec.isBuffering, noFlags]
+        ⟨bound ++ E.vars, Spec.callDefsOf cmod body ++ E.defs, lexS, [], E.nb, E.nf, cmod⟩ := by
+      have hk : (Spec.Kind.body == Spec.Kind.main) = false := rfl
+      simp [innerEnv, hk, F.decl, Spec.isBuffering, noFlags]
     rw [hinner]
-    obtain ⟨m, o1, hm, hS, hto1, ho⟩ := core_bare (progOf ts k) (proeff_skips _ (hnd.bodyHoist s)) (hb1.trans hb) hex hto
-    have hRS := relc_body_start (σS := σ1) bound clex cmod i hR hL hf1 (by rw [hb1]; exact hR.nb)
-    obtain ⟨out, vars', hbS, evS, hret, hfS, hlS', hnS⟩ := runS m hm s body false _ σ1 i top rest _ o1 l3 σ2 hg hRS
-      (hn1.trans hn0) ⟨hl.funs, hlex, hlex⟩ hσ1 (hb1.trans hb) rfl hS hto1
+    -- the defs of the `<%call>` are already in scope (they came with the layer)
+    have hFD : ClosRel l.funs (Spec.callDefsOf cmod body ++ E.defs) := by
+      intro x hx
+      rw [hED, lookup_dup_prefix x hx, ← hED]
+      exact hR.funs x hx
+    obtain ⟨m, o1, hm, hS, hto1, ho⟩ := core_bare (progOf ts k) (proeff_skips _ (bodyHoist_skips body _ _ _ _ _ hg))
+      (hb1.trans hb) hex hto
+    have hRS := relc_body_start (σS := σ1) bound clex cmod i hFD hR hL hf1 (by rw [hb1]; exact hR.nb)
+    obtain ⟨out, vars', hbS, evS, hret, hfS, hlS', hnS⟩ := runS m hm _ body false true true _ σ1 i top rest _ o1 l3 σ2 hg
+      hRS (hn1.trans hn0) ⟨hl.funs, hlex, hlex⟩ hσ1 (hb1.trans hb) rfl hS hto1
     have hn2 : σ2.next = σ1.next := by rw [hnS, hn1, hn0]
     have hib : Spec.isBuffering noFlags = false := rfl
     refine ⟨⟨conv o1, out, σ2.cnt, vars'⟩, evS, ?_⟩
